@@ -18,10 +18,10 @@ the correspondence check runs against render():
   vertices) and C03 `clip_bary` (clipped vertices are convex combinations of the input, attributes
   alike) this is the statement that every written pixel holds the input triangle's attribute,
   interpolated affinely in clip space, at the point that projects to the pixel centre, and 1/w of it.
-PARTIAL: (1) which pixels are written and which surface wins (coverage of the six-plane clip,
-edge-function equivalence, z-buffer lifting to whole scenes) is not composed into one theorem; it is
-decided per scene by the homogeneous-rasterisation oracle `Retro.Spec.Ideal` on the
-implementation's own buffers; (2) float rounding (0.5 % / 0.2 %) is outside the theorems.
+Which pixels are written and which surface wins is composed in `Retro.Props.C01.Ideal` and
+`Retro.Props.C01.Visible*` (`render_pixel_c01`, `render_pixel_c01_visible`). PARTIAL: float rounding
+(0.5 % / 0.2 %) is outside the theorems; the homogeneous-rasterisation oracle `Retro.Spec.Ideal` decides it
+per scene on the implementation's own buffers.
 -/
 import Retro.Model.Render
 import Retro.Lemmas.Clip
